@@ -18,6 +18,7 @@ import json
 import multiprocessing as mp
 import os
 import random
+import re
 import threading
 import time
 
@@ -135,7 +136,9 @@ def collect(ctx, validated, stats):
                 rp['failing_step'] = step
                 rp['event'] = {k: ev[k] for k in ev if k != 'post'}
                 ctx.violation(clause, klass, rp,
-                              detail=json.dumps({k: ev[k] for k in ('call', 'gen', 'exc', 'msg') if k in ev}))
+                              detail=json.dumps(dict({k: ev[k] for k in ('call', 'gen', 'exc', 'msg') if k in ev},
+                                                      rootKindAfter=ev['post']['rootKind'],
+                                                      via=bool(sc['script'][step - 1]['plan'].get('via')))))
             for c in v['classes']:
                 outcome, _, k = c.partition('/')
                 ctx.distinct.add((outcome, k))
@@ -210,8 +213,15 @@ def run(ctx):
 
     def model():
         try:
-            ctx.model('RawMC', 'RawMC' if ctx.quick else 'RawMC_thorough', workers=4,
-                      required=('PutSrcReparse', 'RawPut', 'PutSrcNone', 'Reparse'), timeout=2400)
+            # no -coverage (it slows this recursion-heavy model down by an order of magnitude): the vacuity guard is
+            # the model's own POSTCONDITION AllKindsTaken (every call kind x outcome counted > 0), one worker
+            r = ctx.model('RawMC', 'RawMC' if ctx.quick else 'RawMC_thorough', workers=1, coverage=False, timeout=2400)
+            m = re.search(r'<<"CALLS", <<([\d, ]+)>>>>', r['out'])
+            if not m:
+                raise common.Machinery('RawMC: POSTCONDITION AllKindsTaken did not report')
+            ctx.extra['model_calls'] = dict(zip(['put_src/ok', 'put_src/raise', 'raw_put/ok', 'raw_put/raise',
+                                                 'reparse/ok', 'reparse/raise', 'put_none', 'clip_error'],
+                                                [int(x) for x in m.group(1).split(',')]))
         except Exception as e:  # noqa: BLE001
             merr.append(e)
 
